@@ -16,6 +16,7 @@ import re
 from pathlib import Path
 
 from .. import docs
+from .. import docs as docs_mod
 from ..common import REPO, rng, seed, tier
 from ..harness import Run, main_wrapper
 
@@ -232,6 +233,41 @@ def main() -> int:
         meta[j["id"]]["fault"] = {"ref_shape": label}
         j2 = add(f"refshape-cli:{label}", ("refshape-cli",) + tuple(label.split(":")), doc=d, via="cli", cpu_limit=30)
         meta[j2["id"]]["fault"] = {"ref_shape": label}
+    # (e) well-formed documents whose *names* are hostile, in every naming slot (schema key, property, parameter names, operationId, tag, enum value, title),
+    #     and documents whose pieces contradict each other by name (class-name clashes between models and inline enums), under both enum styles
+    from .c09 import SLOTS as NAME_SLOTS, name_doc
+    from .. import names as _names
+    hostile_names = sorted(set(_names.HOSTILE_FIXED) | {"", " ", "-", "%", "{", "}", "{}", "%%", "%d", "$", "\\", "a\\b"})
+    for ni, X in enumerate(hostile_names):
+        for slot in NAME_SLOTS:
+            if quick and (ni + NAME_SLOTS.index(slot)) % 2 and not any(c_ in X for c_ in "%{}$"):
+                continue
+            d = name_doc(X, slot)
+            if d is None:
+                continue
+            le = (ni + NAME_SLOTS.index(slot)) % 4 == 0
+            j = add(f"name:{slot}:{X!r}", ("name", slot, ni), doc=d, cfg={"literal_enums": le}, cpu_limit=30)
+            meta[j["id"]]["fault"] = {"name": X, "slot": slot, "literal_enums": le}
+    a_ = {"type": "object", "properties": {"code": {"type": "integer"}}}
+    clash_sets = {
+        "model_vs_inline_enum": [("OrderStatus", a_), ("Order", {"type": "object", "properties": {"status": {"type": "string", "enum": ["open", "closed"]}}})],
+        "model_vs_inline_int_enum": [("InvoiceKind", a_), ("Invoice", {"type": "object", "properties": {"kind": {"type": "integer", "enum": [1, 2]}}})],
+        "enum_vs_inline_model": [("PurchaseDetail", {"type": "string", "enum": ["x", "y"]}), ("Purchase", {"type": "object", "properties": {"detail": {"type": "object", "properties": {"why": {"type": "string"}}}}})],
+        "enum_vs_inline_enum_other_values": [("TicketState", {"type": "string", "enum": ["a", "b"]}), ("Ticket", {"type": "object", "properties": {"state": {"type": "string", "enum": ["c", "d"]}}})],
+        "enum_vs_inline_enum_other_type": [("TicketState", {"type": "integer", "enum": [1, 2]}), ("Ticket", {"type": "object", "properties": {"state": {"type": "string", "enum": ["c", "d"]}}})],
+        "model_vs_model_case": [("FooBAR", a_), ("FooBar", a_)], "model_vs_union_member": [("PetType0", a_), ("Pet", {"oneOf": [{"type": "object", "properties": {"x": {"type": "string"}}}, {"type": "integer"}]})],
+        "model_vs_array_item": [("BoxItemsItem", a_), ("Box", {"type": "object", "properties": {"items": {"type": "array", "items": {"type": "object", "properties": {"y": {"type": "string"}}}}}})],
+        "model_vs_additional_property": [("BagAdditionalProperty", a_), ("Bag", {"type": "object", "additionalProperties": {"type": "object", "properties": {"z": {"type": "string"}}}})],
+    }
+    for cname, items in clash_sets.items():
+        for order in (0, 1):
+            for le in (False, True):
+                d = docs_mod.base_doc("3.0.3", "Clash")
+                for k_, v_ in (items if order == 0 else items[::-1]):
+                    d["components"]["schemas"][k_] = json.loads(json.dumps(v_))
+                d["paths"] = {"/c": {"get": {"operationId": "get_c", "responses": {"200": {"description": "ok", "content": {"application/json": {"schema": {"$ref": "#/components/schemas/" + items[1][0]}}}}}}}}
+                j = add(f"clash:{cname}:{order}:{le}", ("clash", cname, order, le), doc=d, cfg={"literal_enums": le}, cpu_limit=30)
+                meta[j["id"]]["fault"] = {"clash": cname, "order": order, "literal_enums": le}
     # random pairs
     for k in range(150 if quick else 3000):
         bname, bdoc = bases[k % len(bases)]
